@@ -232,7 +232,7 @@ pub fn run(cfg: &Cfg, rep: &mut Report) {
                 let ok = match (want, &r) {
                     (Some(1), Ok(v)) => *v == ty.max,
                     (Some(_), Ok(v)) => *v == ty.min,
-                    (None, Err(e)) => is_command_error(e.get_code()),
+                    (None, Err(_)) => true, // rejected; type fault vs value-not-allowed is not fixed by the statement
                     _ => false,
                 };
                 if !ok {
@@ -252,7 +252,7 @@ pub fn run(cfg: &Cfg, rep: &mut Report) {
             }
             4 => {
                 // non-numeric element kinds
-                let toks = [Token::StringProgramData(b"12"), Token::ArbitraryBlockData(b"12"), Token::ExpressionProgramData(b"12"), Token::CharacterProgramData(b"ABC"), Token::CharacterProgramData(b"ON")];
+                let toks = [Token::StringProgramData(b"12"), Token::ArbitraryBlockData(b"12"), Token::ExpressionProgramData(b"12"), Token::StringProgramData(b"MAX"), Token::ArbitraryBlockData(b"")];
                 let t = *rng.pick(&toks);
                 let r = (ty.conv)(t);
                 ctx.count("non-numeric");
